@@ -320,6 +320,8 @@ func C11(c *vk.Ctx) {
 		cfgs = append(cfgs, cfgsC01(c)...)
 	}
 	hubCampaign(c, cfgs, c.Pick(1600, 40000), allDownEdges, 60, predC11)
+	// a superseded list does not come back: passes over one CRL do not overlap (CrlRepo.tla has one loader process per entry)
+	c.Add("traces_validated_against_impl", int64(overlappingPasses(c, "C11")))
 	// the cross-issuer clause: only lists of the issuer itself and of the other CA are served, and the other CA's entries carry
 	// a certificateIssuer entry extension that names the probe's issuer
 	hubFocus(c, []HubCfg{
